@@ -171,6 +171,13 @@ type PanOpts struct {
 	Faults         []Fault
 	StallFor       time.Duration
 	CommitPend     int // number of PEND answers before OK
+	// Dirty > 0: the candidate configuration shows uncommitted changes, as
+	// PAN-OS marks them (attributes admin, dirtyId, time), at that many
+	// rule entries; DirtyAdmin is the administrator they belong to
+	// (default: User, i.e. what an approve interrupted before its commit
+	// leaves behind).
+	Dirty      int
+	DirtyAdmin string
 }
 
 type PanServer struct {
@@ -193,6 +200,42 @@ func NewPanServer(device *panm.State, o PanOpts) *PanServer {
 	}
 	s.srv = httptest.NewTLSServer(http.HandlerFunc(s.handle))
 	return s
+}
+
+// markDirty adds the attributes of uncommitted changes to the first
+// opts.Dirty entries behind the first <rules> element.
+func (s *PanServer) markDirty(cfg string) string {
+	if s.opts.Dirty <= 0 || s.Commits > 0 {
+		return cfg
+	}
+	admin := s.opts.DirtyAdmin
+	if admin == "" {
+		admin = s.opts.User
+	}
+	at := strings.Index(cfg, "<rules>")
+	if at < 0 {
+		at = 0
+	}
+	head, rest := cfg[:at], cfg[at:]
+	const open = `<entry name="`
+	var b strings.Builder
+	b.WriteString(head)
+	for n := 0; n < s.opts.Dirty; n++ {
+		i := strings.Index(rest, open)
+		if i < 0 {
+			break
+		}
+		j := strings.Index(rest[i+len(open):], `"`)
+		if j < 0 {
+			break
+		}
+		end := i + len(open) + j + 1
+		b.WriteString(rest[:end])
+		fmt.Fprintf(&b, ` admin="%s" dirtyId="%d" time="2026/10/01 11:58:0%d"`, admin, n+3, n%10)
+		rest = rest[end:]
+	}
+	b.WriteString(rest)
+	return b.String()
 }
 
 func (s *PanServer) member() PanMember {
@@ -273,7 +316,7 @@ func (s *PanServer) handle(w http.ResponseWriter, r *http.Request) {
 		q.Class = "readonly"
 		q.Res = "ok"
 		xmlResp(w, `<response status="success" code="19"><result total-count="1" count="1">`+
-			s.Candidate.Devices.String(false)+`</result></response>`)
+			s.markDirty(s.Candidate.Devices.String(false))+`</result></response>`)
 	case typ == "config":
 		q.Class = "change"
 		c := panm.Cmd{Action: v.Get("action"), XPath: v.Get("xpath"), Element: v.Get("element"), Where: v.Get("where"), Dst: v.Get("dst")}
